@@ -1,7 +1,9 @@
 package httpc
 
 import (
+	"bytes"
 	"context"
+	"io"
 	"net/http"
 	"net/url"
 
@@ -84,16 +86,31 @@ func verifWire(c *http.Request) (*http.Request, error) {
 			h.Add(k, v)
 		}
 	}
+	// body: the bytes the client's Body yields, announced by Content-Length =
+	// the client's ContentLength (the transport refuses to send a body of another
+	// length); "For server requests, the Request Body is always non-nil".
+	body := io.ReadCloser(http.NoBody)
+	if c.Body != nil {
+		b, err := io.ReadAll(c.Body)
+		if err != nil {
+			return nil, err
+		}
+		verifAssert(int64(len(b)) == c.ContentLength, "the client's ContentLength is the length of the body it wrote")
+		if len(b) > 0 {
+			body = io.NopCloser(bytes.NewReader(b))
+		}
+	}
 	return &http.Request{
-		Method:     c.Method,
-		URL:        su,
-		Proto:      "HTTP/1.1",
-		ProtoMajor: 1,
-		ProtoMinor: 1,
-		Header:     h,
-		Host:       c.URL.Host,
-		RequestURI: uri,
-		Body:       http.NoBody, // "For server requests, the Request Body is always non-nil": no body was sent
+		Method:        c.Method,
+		URL:           su,
+		Proto:         "HTTP/1.1",
+		ProtoMajor:    1,
+		ProtoMinor:    1,
+		Header:        h,
+		Host:          c.URL.Host,
+		RequestURI:    uri,
+		Body:          body,
+		ContentLength: c.ContentLength,
 	}, nil
 }
 
